@@ -13,6 +13,7 @@ int64_t  __vf_now(void);                  // steady clock reading (ticks)
 uint64_t __vf_random(uint64_t lo, uint64_t hi);
 void     __vf_mutex_lock(void* m);
 void     __vf_mutex_unlock(void* m);
+void     __vf_lib_write(const void* p);    // a write the library performs that the optimiser may fold away: told to the access monitor (K3), a no-op elsewhere
 }
 
 #ifndef VSTD_TAB_MAX
@@ -578,8 +579,35 @@ public:
         __vf_check(it.i != 0, VF_LIST_DEREF_END);
         if (pos.i == it.i || pos.i == m_pool[it.i].next)
             return;
+        // libstdc++ runs _M_inc_size(1) on *this and _M_dec_size(1) on the source even when both are the same list, and by
+        // [res.on.data.races] a non-const member function may modify the object: the size field is WRITTEN here (the
+        // value is restored).  An optimiser folds the two stores away, which is why the write is declared to the access
+        // monitor explicitly instead of being performed.
+        __vf_lib_write(&m_size);
         unhook(it.i);
         hook(it.i, pos.i);
+    }
+    // range form, same list: [first, last) moves before pos, order preserved; pos must not lie inside the range
+    void splice(iterator pos, list& other, iterator first, iterator last)
+    {
+        __vf_check(&other == this, VF_LIST_FOREIGN_ITER);
+        check_mine(pos);
+        __vf_check(first.l == this && last.l == this, VF_LIST_FOREIGN_ITER);
+        if (first.i == last.i)
+            return;
+        __vf_lib_write(&m_size);
+        for (size_t n = first.i; n != last.i;)
+        {
+            __vf_check(n != 0, VF_LIST_DEREF_END);
+            __vf_check(n != pos.i, VF_LIST_FOREIGN_ITER); // pos inside [first, last): undefined
+            size_t nx = m_pool[n].next;
+            if (pos.i != nx)
+            {
+                unhook(n);
+                hook(n, pos.i);
+            }
+            n = nx;
+        }
     }
 
 private:
